@@ -4,7 +4,7 @@ CFG = dict(
     coq="Properties/C06.v",
     areas=["lzmadec"],
     level="proof",
-    theorems_expected=[],
+    theorems_expected=["C06_decode_bit_never_panics", "C06_run_rc_total", "C06_window_rejects_far", "C06_decode_total"],
     rule="cases = streams produced by the crate's LZMA/LZMA2 writers under random in-range options (plus trailing bytes), the same streams "
          "corrupted (bit flip, byte substitution, truncation, deletion, header flip) and random byte strings, each fed to LZMAReader "
          "(new_mem_limit / new_with_props / new) and LZMA2Reader with a destination-size history; the observation "
